@@ -16,7 +16,10 @@ func init() {
 			idP := [][2]int{{1, 0}, {1, 1}, {2, 0}, {3, 2}, {100, 100}, {249, 0}, {200, 49}, {252, 0}, {253, 0}, {255, 0}, {254, 1}}
 			if th {
 				coilP, regP = rng(1, 255), nil
-				for p := 2; p <= 254; p += 2 {
+				// every byte-count value, odd ones included: a register payload with an odd byte count is not what a
+				// conforming device sends, but the format allows it and the statement quantifies over all 0..255
+				// values: whatever the parser accepts must come back byte for byte
+				for p := 1; p <= 255; p++ {
 					regP = append(regP, p)
 				}
 				idP = nil
@@ -48,6 +51,19 @@ func init() {
 					}
 				}
 				js = append(js, sym.Job{Harness: "VH_C02_exception_wellformed", Params: map[string]int{"tcp": tcp}})
+				// two frames parsed one after the other (state shared between parses would show here)
+				for sel := 0; sel < 10; sel++ {
+					p, q := 0, 0
+					switch sel {
+					case 0, 1:
+						p = 3
+					case 2, 3, 9:
+						p = 4
+					case 8:
+						p, q = 3, 2
+					}
+					js = append(js, sym.Job{Harness: "VH_C02_decode_twice", Params: map[string]int{"sel": sel, "tcp": tcp, "p": p, "q": q}})
+				}
 			}
 			lsT, lsR := append(rng(8, 24), rng(255, 264)...), append(rng(2, 20), rng(251, 260)...)
 			if th {
@@ -68,11 +84,11 @@ func init() {
 			return js
 		},
 		Bounds: map[string]string{
-			"quick":    "well-formed responses of all 10 functions x {TCP,RTU}: header fields, addresses, counts, payload bytes symbolic; byte-counted payloads over every byte-count value the format allows: coil payloads 1..255 bytes, register payloads 2..254 bytes (even), FC17 id lengths 1..255 (odd) with additional data {0,1,2,rest}; all 128x256 exception frames (function and code symbolic); high-bit and byte-count-mismatch obligations on every frame of length 8..264 (TCP) / 2..260 (RTU)",
+			"quick":    "well-formed responses of all 10 functions x {TCP,RTU}: header fields, addresses, counts, payload bytes symbolic; byte-counted payloads over every byte-count value the format allows: coil payloads 1..255 bytes, register payloads 1..255 bytes (odd byte counts included), FC17 id lengths 1..255 (odd) with additional data {0,1,2,rest}; for every function two frames (own symbolic contents, short payloads) parsed one after the other: the second decodes exactly and the first value still re-encodes to its own frame; all 128x256 exception frames (function and code symbolic); high-bit and byte-count-mismatch obligations on every frame of length 8..264 (TCP) / 2..260 (RTU)",
 			"thorough": "same as quick (the bound is the claim)",
 		},
 
 		Outside:   []string{"frames longer than 264 bytes", "FC17 layout follows the library's documentation (id length | id | status | additional), the specification leaves it device specific"},
-		MinCovers: []string{"well-formed", "exception", "highbit", "mismatch"},
+		MinCovers: []string{"well-formed", "exception", "highbit", "mismatch", "second-parse"},
 	})
 }
